@@ -56,7 +56,7 @@ ASSUMPTIONS = ["internal terms only (kwargs_formula external_terms=False), as in
                "Fermi level at the centre of a global gap >= GAP_MIN x hopping scale found on the harness' own 60x60 mesh",
                "discretisation error of a 60x60 mesh for gap/hopping-scale >= 0.1 is far below 0.02 (calibrated: <= 1e-6 at ratio 0.10, extrapolated 4e-3 at 0.05)",
                "constants e, h, hbar from scipy.constants; V_cell = |det(lattice)| computed by the harness"]
-MIN_NONTRIVIAL = {"quick": 20, "thorough": 400}
+MIN_NONTRIVIAL = {"quick": 30, "thorough": 1500}
 
 NMESH = 60
 GAP_MIN = 0.1     # global gap / hopping scale; calibrated: |v-round(v)| <= 1e-6 at 0.10, 2e-7 at 0.11, 1e-10 at 0.15
@@ -411,6 +411,6 @@ def check_chern(case):
 
 
 SUBS = [
-    Sub("sumrule", sum_case, check_sumrule, quick=240, thorough=4000, budget_quick=150.0, budget_thorough=900.0),
-    Sub("chern", chern_case(), check_chern, quick=32, thorough=640, budget_quick=200.0, budget_thorough=900.0),
+    Sub("sumrule", sum_case, check_sumrule, quick=200, thorough=6400, budget_quick=150.0, budget_thorough=900.0),
+    Sub("chern", chern_case(), check_chern, quick=24, thorough=640, budget_quick=200.0, budget_thorough=900.0),
 ]
